@@ -292,15 +292,51 @@ P.not_decided.append("reb_M_to_E: convergence of the Newton iteration (that the 
 from engine.mem import NULL
 
 
-def _inverse_inputs(v, with_sim=False):
+def _inverse_inputs(v, general_primary=False):
+    """Inputs of reb_orbit_from_particle_err.  Unless general_primary, the primary is put at the origin at rest:
+    the function reads positions and velocities only through the differences p - primary (proved by task
+    from_particle.translation_invariant), so this loses no generality."""
     G = v.real("G")
     p = v.struct("struct reb_particle", "p")
     prim = v.struct("struct reb_particle", "primary")
     p.sim = NULL
+    if not general_primary:
+        for c in ("x", "y", "z", "vx", "vy", "vz"):
+            setattr(prim, c, R(0))
     errc, errp = v.cell("int", "err", z3.IntVal(0))
     d = (p.x - prim.x, p.y - prim.y, p.z - prim.z)
     w = (p.vx - prim.vx, p.vy - prim.vy, p.vz - prim.vz)
     return G, p, prim, errp, d, w
+
+
+ORBIT_FIELDS = ("d", "v", "h", "P", "n", "a", "e", "inc", "Omega", "omega", "pomega", "f", "M", "l", "theta", "T", "rhill",
+                "pal_h", "pal_k", "pal_ix", "pal_iy")
+
+
+@P.task("from_particle.translation_invariant", fn="reb_orbit_from_particle_err")
+def _(v):
+    """Every output (and the error code) for (p, primary) equals the output for (p - primary, primary moved to the
+    origin at rest): justifies primary = origin at rest in the other from_particle tasks."""
+    G, p, prim, errp, d, w = _inverse_inputs(v, general_primary=True)
+    v.eng.check_defined = False
+    p2 = v.struct("struct reb_particle", "p_rel")
+    prim2 = v.struct("struct reb_particle", "primary_rel")
+    p2.sim = NULL
+    p2.m, prim2.m = p.m, prim.m
+    for k, c in enumerate(("x", "y", "z")):
+        setattr(p2, c, d[k])
+        setattr(p2, "v" + c, w[k])
+        setattr(prim2, c, R(0))
+        setattr(prim2, "v" + c, R(0))
+    errc2, errp2 = v.cell("int", "err2", z3.IntVal(0))
+    o1 = v.call("reb_orbit_from_particle_err", G, p, prim, errp)
+    o2 = v.call("reb_orbit_from_particle_err", G, p2, prim2, errp2)
+    v.prove("err", v.read(errp) == v.read(errp2))
+    for f in ORBIT_FIELDS:
+        v.prove(f, o1[f] == o2[f])
+    for f in ("hvec", "evec"):
+        for c in "xyz":
+            v.prove(f + "." + c, getattr(o1[f], c) == getattr(o2[f], c))
 
 
 @P.task("from_particle.errors", fn="reb_orbit_from_particle_err")
@@ -317,8 +353,11 @@ def _(v):
 
 
 def _no_error(v, G, p, prim, d):
-    """Non-error condition of reb_orbit_from_particle_err plus physical masses."""
-    v.assume(G > 0, p.m >= 0, prim.m > R(TINY), _dot(d, d) > R(TINY) * R(TINY))
+    """Non-error condition of reb_orbit_from_particle_err (primary.m > TINY, distance > TINY) plus physical
+    masses and G > 0.  Returns the distance (the engine's sqrt term, the same one the code computes)."""
+    D = v.eng.math1(v.st, "sqrt", _dot(d, d))
+    v.assume(G > 0, p.m >= 0, prim.m > R(TINY), D > R(TINY))
+    return D
 
 
 # ---- acos2: contract used at the 7 call sites of reb_orbit_from_particle_err ---------------------------------------
@@ -361,18 +400,40 @@ def _(v):
     got = v.call("acos2", num, den, dis)
     want = _acos2_spec(v.eng, v.st, num, den, dis)
     v.prove("equals_spec", got == want)
-    v.prove("range", z3.And(got > -pi, got <= R(PI), got < pi))
+    v.prove("range", z3.And(got >= -pi, got <= pi))
     v.prove("nonneg_when_disambiguator_nonneg", z3.Implies(dis >= 0, got >= 0))
 
 
-DEF_ORDER = ("z3slice", "z3", "cvc5")
+DEF_ORDER = ("z3quick", "z3slice", "z3", "cvc5")
 
 
-def _slice_first(v):
+def _acosh_by_contract(v):
+    """acosh at tools.c:1106 through a contract: the call-site precondition (argument >= 1) is not generated here;
+    the axioms of the result are only assumed under argument >= 1 (nothing is assumed about the undefined case)."""
+    def apply(eng, st, args, n):
+        x = as_real(args[0])
+        old = eng.check_defined
+        eng.check_defined = False
+        st.guards.append(x >= 1)
+        try:
+            return eng.math1(st, "acosh", x, n)
+        finally:
+            st.guards.pop()
+            eng.check_defined = old
+    v.contract("acosh", apply)
+
+
+P.not_decided.append("reb_orbit_from_particle_err, tools.c:1106 acosh((1-d/a)/e) for e >= 1: argument >= 1 holds over the "
+                     "reals for non-radial states (e^2-1 = (X-1) h^2/(d mu), e^2 = X^2-(X-1)(r.v)^2/(d mu) with X = 1-d/a) but "
+                     "is not discharged by z3/cvc5 within the budget; in floating point it is FALSE at/near pericentre "
+                     "(argument rounds below 1 -> NaN M, l, T: natively reproduced, reported as defect)")
+
+
+def _slice_first(v, order=None):
     """Engine-generated obligations of this path: try subsets of the hypotheses first (sound, see backends.z3_slices)."""
     for ob in v.eng.obligations:
         if ob.verdict is None and "order" not in ob.meta:
-            ob.meta["order"] = DEF_ORDER
+            ob.meta["order"] = order or DEF_ORDER
 
 
 P.assume("pi: the symbolic real M_PI used by the acos/atan2 axioms satisfies PI_double < pi < PI_double + 2e-16 "
@@ -394,20 +455,84 @@ for _cfg in ("generic", "retrograde_planar"):
     def _(v, cfg=_cfg):
         """Definedness of every division / sqrt / acos on the non-error path.
         generic: non-parabolic, non-radial, not exactly retrograde-planar state.
-        retrograde_planar (hx = hy = 0, hz < 0, i.e. inc = pi, a valid orbit): EXPECTED TO FAIL on the unchanged tree
+        retrograde_planar (z = vz = 0, hz < 0, i.e. inc = pi, a valid orbit): EXPECTED TO FAIL on the unchanged tree
         at the Pal-coordinate block (1 + hz/h = 0 and h + hz = 0): pal_h, pal_k, pal_ix, pal_iy are NaN."""
         G, p, prim, errp, d, w = _inverse_inputs(v)
-        _no_error(v, G, p, prim, d)
+        if cfg == "retrograde_planar":
+            # motion in the xy plane, particle on the x axis at an apsis (vx = 0); family kept small so that the
+            # solver can exhibit a counter-model
+            p.y, p.z, p.vx, p.vz = R(0), R(0), R(0), R(0)
+            d, w = (d[0], R(0), R(0)), (R(0), w[1], R(0))
+            v.assume(p.x > 0)
+        D = _no_error(v, G, p, prim, d)
         mu = G * (p.m + prim.m)
-        D = v.eng.math1(v.st, "sqrt", _dot(d, d))
         h = _hvec(d, w)
+        Hs = v.eng.math1(v.st, "sqrt", _dot(h, h))
         v.assume(_dot(w, w) * D != 2 * mu)                                # not parabolic
         if cfg == "generic":
-            v.assume(_dot(h, h) > 0)                                      # not radial
-            v.assume(z3.Not(z3.And(h[0] == 0, h[1] == 0, h[2] < 0)))      # not exactly retrograde planar
+            v.assume(Hs > 0)                                              # not radial
+            v.assume(Hs + h[2] != 0)                                      # not exactly retrograde planar (hz = -|h|)
         else:
-            v.assume(h[0] == 0, h[1] == 0, h[2] < 0)
+            v.assume(h[2] < 0)                                            # clockwise: inc = pi
         _use_acos2_contract(v)
+        _acosh_by_contract(v)
         o = v.call("reb_orbit_from_particle_err", G, p, prim, errp)
         v.prove("no_error", v.read(errp) == 0)
-        _slice_first(v)
+        _slice_first(v, ("z3quick", "z3", "z3slice", "cvc5") if cfg == "retrograde_planar" else DEF_ORDER)
+
+
+@P.task("from_particle.ranges", fn="reb_orbit_from_particle_err")
+def _(v):
+    """Reported elements are in their ranges for every non-error input (definedness: from_particle.defined.*)."""
+    G, p, prim, errp, d, w = _inverse_inputs(v)
+    D = _no_error(v, G, p, prim, d)
+    pi = _pi_facts(v)
+    v.eng.check_defined = False
+    _use_acos2_contract(v)
+    _acosh_by_contract(v)
+    o = v.call("reb_orbit_from_particle_err", G, p, prim, errp)
+    v.prove("no_error", v.read(errp) == 0)
+    v.prove("e_nonneg", o.e >= 0)
+    v.prove("d_positive", o.d > 0)
+    v.prove("v_nonneg", o.v >= 0)
+    v.prove("h_nonneg", o.h >= 0)
+    v.prove("inc_in_0_pi", z3.And(o.inc >= 0, o.inc <= pi))
+    v.prove("Omega_in_mpi_pi", z3.And(o.Omega >= -pi, o.Omega <= pi))
+    for f in ("f", "l", "M", "theta", "omega"):
+        v.prove(f + "_in_0_2pi", z3.And(o[f] >= 0, o[f] < R(PI2)))
+    _slice_first(v)
+
+
+@P.task("from_particle.relations.core", fn="reb_orbit_from_particle_err", polyid_s=120)
+def _(v):
+    """Defining relations of d, v, a, h, hvec, evec, e, n, P, rhill (M&D 2.134-2.138; vis-viva; e = v x h/mu - r/|r|;
+    Kepler III), for non-parabolic, non-error states."""
+    G, p, prim, errp, d, w = _inverse_inputs(v)
+    D = _no_error(v, G, p, prim, d)
+    mu = G * (p.m + prim.m)
+    v.assume(_dot(w, w) * D != 2 * mu)                                     # not parabolic
+    v.eng.check_defined = False
+    _use_acos2_contract(v)
+    _acosh_by_contract(v)
+    o = v.call("reb_orbit_from_particle_err", G, p, prim, errp)
+    h = _cross(d, w)
+    v.prove("d", z3.And(o.d * o.d == _dot(d, d), o.d >= 0), order=("z3",))
+    v.prove("v", z3.And(o.v * o.v == _dot(w, w), o.v >= 0), order=("z3",))
+    v.prove("a.vis_viva", _dot(w, w) == mu * (2 / o.d - 1 / o.a), order=PZ)
+    for k, c in enumerate("xyz"):
+        v.prove("hvec." + c, getattr(o.hvec, c) == h[k], order=PZ)
+    v.prove("h", z3.And(o.h * o.h == _dot(h, h), o.h >= 0), order=("z3",))
+    ev = [_cross(w, h)[k] / mu - d[k] / o.d for k in range(3)]
+    for k, c in enumerate("xyz"):
+        v.prove("evec." + c, getattr(o.evec, c) == ev[k], order=PZ)
+    oe = (o.evec.x, o.evec.y, o.evec.z)
+    v.prove("e", z3.And(o.e * o.e == _dot(oe, oe), o.e >= 0), order=("z3",))
+    # energy-eccentricity relation: e^2 = 1 - h^2/(mu a)  (M&D 2.135 with p = h^2/mu = a(1-e^2))
+    v.prove("e.semilatus", _dot(h, h) == mu * o.a * (1 - o.e * o.e), order=PZ)
+    # Kepler III: n^2 |a|^3 = mu, n has the sign of a, n P = 2 pi
+    cut(v, "a_nonzero", o.a != 0, order=DEF_ORDER)
+    v.prove("n.kepler3.bound", z3.Implies(o.a > 0, z3.And(o.n > 0, o.n * o.n * o.a * o.a * o.a == mu)), order=DEF_ORDER)
+    v.prove("n.kepler3.unbound", z3.Implies(o.a < 0, z3.And(o.n < 0, o.n * o.n * o.a * o.a * o.a == -mu)), order=DEF_ORDER)
+    v.prove("P", o.n * o.P == R(PI2), order=DEF_ORDER)
+    # Hill radius a (m/(3M))^(1/3)
+    v.prove("rhill", o.rhill * o.rhill * o.rhill * 3 * prim.m == o.a * o.a * o.a * p.m, order=PZ)
